@@ -44,6 +44,11 @@ func main() {
 			dir = a[4]
 		}
 		props.DebugWF(seed, n, show, dir)
+	case "debugcycles":
+		var seed uint64 = 1
+		n := 2000
+		fmt.Sscan(a[2], &seed)
+		props.DebugCycles(a[1], seed, n)
 	case "render":
 		props.DebugRender(a[1], a[2])
 	case "list":
